@@ -3,6 +3,6 @@ EXTENDS SplineEval
 MCN == {4}
 MCGaps(n) == {1, 3}
 MCYs(n) == {-3, 0, 2}
-MCOff == {0}
+MCOff(n) == {0}
 MCLong == {12}
 ====
